@@ -164,7 +164,7 @@ def _worker_loader(args):
     seed, shard, nstreams, exe, exhaustive = args
     rng = gen.rng_for(seed, PROP, "loader", shard)
     part = report.Part()
-    GROUP = 40      # bounded memory: the hex of a stream is repeated once per partition
+    GROUP = 5       # bounded memory: hex of a stream and its parsed result dumps are repeated once per partition
     for g0 in range(0, nstreams, GROUP):
         _loader_group(part, rng, range(g0, min(nstreams, g0 + GROUP)), exe, exhaustive, shard)
     return part
@@ -205,7 +205,7 @@ def _worker_hs(args):
     seed, shard, nstreams, exe, rundir = args
     rng = gen.rng_for(seed, PROP, "hs", shard)
     part = report.Part()
-    GROUP = 25
+    GROUP = 8
     for g0 in range(0, nstreams, GROUP):
         _hs_group(part, rng, range(g0, min(nstreams, g0 + GROUP)), exe, rundir)
     return part
